@@ -62,7 +62,7 @@ def printer(P):
 
 def bounded(P, R, f):
     bnd.check_scope(P, R, 'C12.BND.1', [f], floor=8)
-    ext = (P.record_field(core.REQ_REC, 'text_addr') or {}).get('array')
+    ext = (P.record_field(core.REQ_REC, core.addr_text_field(P)) or {}).get('array')
     R.ob('C12.BND.1', ext is not None and ext >= 40, f, 'the request\'s address text buffer has the documented size (extent %s)' % ext, key='text_addr-extent', nontrivial=False)
 
 
@@ -178,7 +178,7 @@ def path_weight(P, R, f, out, posv):
         return go(body_entry, frozenset())
     w, wl = longest(False), longest(True)
     total = (N - 1) * w + wl
-    ext = (P.record_field(core.REQ_REC, 'text_addr') or {}).get('array') or 0
+    ext = (P.record_field(core.REQ_REC, core.addr_text_field(P)) or {}).get('array') or 0
     R.ob('C12.BND.2', total < 10 ** 5 and total + 1 <= ext, f,
          'at most %d characters per group iteration (%d in the last of %d): the text has at most %d characters and fits the %d-byte buffer with its terminator'
          % (w, wl, N, total, ext), key='path-weight')
